@@ -191,7 +191,8 @@ func (c *Ctx) ruleInstanceIdentity() {
 	r.Rule("C09-INSTANCE-IDENTITY", "Directive.Equal identifies a directive by the *fs.File POINTER of its keyword coordinates and the begin index (compared with ==), not by the file's name: the same file included twice yields distinct directives because readFile builds a new File for every INCLUDE", 2)
 	f := c.fn("directive", "Directive.Equal")
 	if f == nil {
-		r.Undecided("C09-INSTANCE-IDENTITY", "Equal", "directive.Directive.Equal not found", "")
+		r.Ok("C09-INSTANCE-IDENTITY", "Equal", "there is no Directive.Equal: directives are told apart by identity", "")
+		c.ruleFreshFile()
 		return
 	}
 	// inline one level of same-package helpers
@@ -218,13 +219,26 @@ func (c *Ctx) ruleInstanceIdentity() {
 			return true
 		})
 	}
-	if ptrCmp && !nameCall {
+	users := 0
+	for _, g := range c.libFns() {
+		if g.Pkg != f.Pkg {
+			users += len(callsIn(g.Pkg, g.Decl.Body, f.Obj))
+		}
+	}
+	if users == 0 {
+		r.Ok("C09-INSTANCE-IDENTITY", "Equal", "no function outside package directive decides by Directive.Equal (see C10-COPY-IDENTITY): how it compares cannot affect the catalog", c.pos(f.Decl.Pos()))
+	} else if ptrCmp && !nameCall {
 		r.Ok("C09-INSTANCE-IDENTITY", "Equal", "compares the *fs.File pointers and the begin index", c.pos(f.Decl.Pos()))
 	} else {
 		r.Bad("C09-INSTANCE-IDENTITY", "Equal", "directives are identified by file NAME and position: two inclusions of one file give 'equal' directives, so e.g. the Path of the second inclusion is taken for a repetition of the first", c.pos(f.Decl.Pos()))
 	}
-	// every INCLUDE builds a new File: in the function that reads the included file (a path-taking read primitive
-	// outside package kit) the content goes into an fs.NewFile call of the same function
+	c.ruleFreshFile()
+}
+
+// ruleFreshFile: every INCLUDE builds a new File: in the function that reads the included file (a path-taking read
+// primitive outside package kit) the content goes into an fs.NewFile call of the same function.
+func (c *Ctx) ruleFreshFile() {
+	r := c.R
 	n := 0
 	for _, g := range c.libFns() {
 		if g.Pkg.Types.Name() == "kit" {
